@@ -262,3 +262,47 @@ proof fn lemma_grows_elim<V>(m0: Map<&str, V>, m1: Map<&str, V>, p: spec_fn(Seq<
 {
     reveal(grows_by);
 }
+
+spec fn entry_free(d: DataEntry, sc: ISet<Seq<char>>) -> spec_fn(Seq<char>) -> bool { |x: Seq<char>| entry_reads(d, x) && !sc.contains(x) }
+spec fn row_free(data: Seq<DataEntry>, sc: ISet<Seq<char>>) -> spec_fn(Seq<char>) -> bool { |x: Seq<char>| row_reads(data, x) && !sc.contains(x) }
+proof fn lemma_row_free_push(data: Seq<DataEntry>, d: DataEntry, sc: ISet<Seq<char>>)
+    ensures forall|x: Seq<char>| #[trigger] row_free(data.push(d), sc)(x) <==> (row_free(data, sc)(x) || entry_free(d, sc)(x))
+{
+    let d2 = data.push(d);
+    assert forall|x: Seq<char>| #[trigger] row_free(d2, sc)(x) <==> (row_free(data, sc)(x) || entry_free(d, sc)(x)) by {
+        if row_reads(data, x) {
+            let i = choose|i: int| #[trigger] wi(i) && 0 <= i < data.len() && entry_reads(data[i], x);
+            assert(wi(i) && d2[i] == data[i]);
+        }
+        if entry_reads(d, x) { assert(wi(data.len() as int) && d2[data.len() as int] == d); }
+        if row_reads(d2, x) {
+            let i = choose|i: int| #[trigger] wi(i) && 0 <= i < d2.len() && entry_reads(d2[i], x);
+            if i < data.len() { assert(wi(i) && d2[i] == data[i]); } else { assert(d2[i] == d); }
+        }
+    }
+}
+/// the table after one more entry of the row
+proof fn lemma_row_grows<V>(m0: Map<&str, V>, mi: Map<&str, V>, m1: Map<&str, V>, data: Seq<DataEntry>, d: DataEntry, sc: ISet<Seq<char>>)
+    requires
+        grows_by(m0, mi, row_free(data, sc)),
+        match d {
+            DataEntry::Expr(e) => grows_by(mi, m1, free_in_expr(e, sc)),
+            DataEntry::Bits { number, expr } => grows_by(mi, m1, free_in_expr(expr, sc)),
+            _ => m1 == mi,
+        },
+    ensures grows_by(m0, m1, row_free(data.push(d), sc))
+{
+    match d {
+        DataEntry::Expr(e) => { lemma_grows_same(mi, m1, free_in_expr(e, sc), entry_free(d, sc)); }
+        DataEntry::Bits { number, expr } => { lemma_grows_same(mi, m1, free_in_expr(expr, sc), entry_free(d, sc)); }
+        _ => { lemma_grows_refl(mi); lemma_grows_same(mi, m1, none_free(), entry_free(d, sc)); }
+    }
+    lemma_row_free_push(data, d, sc);
+    lemma_grows_trans(m0, mi, m1, row_free(data, sc), entry_free(d, sc), row_free(data.push(d), sc));
+}
+proof fn lemma_row_grows_start<V>(m0: Map<&str, V>, sc: ISet<Seq<char>>)
+    ensures grows_by(m0, m0, row_free(Seq::<DataEntry>::empty(), sc))
+{
+    lemma_grows_refl(m0);
+    lemma_grows_same(m0, m0, none_free(), row_free(Seq::<DataEntry>::empty(), sc));
+}
